@@ -183,7 +183,7 @@ class Cloner:
             n.else_ = [self.stmt(t, scope) for t in s.else_] if s.else_ is not None else None
         elif k == "macrocall":
             n.args = [self.expr(a) for a in s.args]
-        elif k in ("text", "align", "setpc"):
+        elif k in ("text", "align", "setpc", "testraw"):
             pass
         else:
             raise ValueError("cannot clone %s" % k)
